@@ -131,6 +131,9 @@ class SubCheck:
     def analysed_fn(self, *quals: str) -> None:
         self._host.analysed_fn(*quals)
 
+    def defer(self, err: Exception) -> None:
+        self._host.defer(Exception(f"{self._dep}: {err}"))
+
     def trust(self, *rows: str) -> None:
         self._host.trust(*rows)
 
@@ -149,6 +152,10 @@ class Check:
         self.analysed: list[str] = []
         self.extra: dict[str, Any] = {}
         self.exhaustive: Optional[bool] = None
+        self.deferred: list[str] = []   # clauses that could not be decided while the rest of the property's rules still ran
+
+    def defer(self, err: Exception) -> None:
+        self.deferred.append(str(err))
 
     def rule(self, rid: str, title: str) -> Rule:
         r = Rule(self, rid, title)
